@@ -4,7 +4,8 @@
 EXTENDS ScrapeEndpoint, Json
 CONSTANTS
   ConfigMode,   \* which allowlist configurations: "all2" | "all1" | "aligned2" | "fault"
-  PeerMode      \* "all" | "two"
+  PeerMode,     \* "all" | "two"
+  MaxCalls      \* ConfigMode "hist": builder call histories of at most this many calls
 
 AllAddrs == AddrsOf(W)
 Cidr(a, n) == [k |-> "cidr", a |-> a, n |-> n]
@@ -22,13 +23,26 @@ Bits(i) == [j \in 1..W |-> (i \div Pow2(W - j)) % 2]
 (* fault scopes: no allowlist, a half-space, nested blocks with host bits set *)
 FaultConfigs == {<<>>, <<Cidr(Bits(Pow2(W - 1)), 1)>>, <<Cidr(Bits(5), 2), Cidr(Bits(6), 3)>>}
 
+(* builder calls *)
+NoEntry == [k |-> "none", a |-> <<>>, n |-> 0]
+CallListen == [op |-> "listen", e |-> NoEntry]
+CallOther == [op |-> "other", e |-> NoEntry]
+CallAllow(e) == [op |-> "allow", e |-> e]
+(* the usual chain: with_http_listener(addr) first, then the entries *)
+Std(es) == <<CallListen>> \o [i \in DOMAIN es |-> CallAllow(es[i])]
+(* every history of <= MaxCalls calls over: set the listen address, an unrelated setter, two different entries
+   (a quarter of the space written with host bits set; one host written as a plain address) *)
+HistAlphabet == {CallListen, CallOther, CallAllow(Cidr(Bits(5), 2)), CallAllow(Plain(Bits(9)))}
+Histories == UNION {[1..n -> HistAlphabet] : n \in 0..MaxCalls}
+
 MCConfigs ==
-  CASE ConfigMode = "all2"     -> Seqs2(CidrEntries \cup PlainEntries \cup {BadEntry})
-    [] ConfigMode = "all1"     -> Seqs1(CidrEntries \cup PlainEntries \cup {BadEntry})
-    [] ConfigMode = "aligned2" -> Seqs2(AlignedCidr \cup PlainEntries)
-    [] ConfigMode = "cidr2"    -> Seqs2(CidrEntries)
-    [] ConfigMode = "fault"    -> FaultConfigs
-    [] ConfigMode = "nested"   -> {<<Cidr(Bits(5), 2), Cidr(Bits(6), 3)>>}
+  CASE ConfigMode = "all2"     -> {Std(es) : es \in Seqs2(CidrEntries \cup PlainEntries \cup {BadEntry})}
+    [] ConfigMode = "all1"     -> {Std(es) : es \in Seqs1(CidrEntries \cup PlainEntries \cup {BadEntry})}
+    [] ConfigMode = "aligned2" -> {Std(es) : es \in Seqs2(AlignedCidr \cup PlainEntries)}
+    [] ConfigMode = "cidr2"    -> {Std(es) : es \in Seqs2(CidrEntries)}
+    [] ConfigMode = "fault"    -> {Std(es) : es \in FaultConfigs}
+    [] ConfigMode = "nested"   -> {Std(<<Cidr(Bits(5), 2), Cidr(Bits(6), 3)>>)}
+    [] ConfigMode = "hist"     -> Histories
 MCPeers == IF PeerMode = "all" THEN AllAddrs ELSE {Bits(6), Bits(Pow2(W) - 1)}
 
 (* the decision scope: every configuration x every peer x every path, one well-formed request on one connection *)
@@ -45,5 +59,5 @@ DecSpec == Init /\ [][DecNext]_vars
 ConnSym == Permutations(Conns)
 ExportNext == Configure
 ExportSpec == Init /\ [][ExportNext]_vars
-Emit == phase = "run" => PrintT(<<"REPLAY", ToJson([entries |-> entries])>>)
+Emit == phase = "run" => PrintT(<<"REPLAY", ToJson([hist |-> hist])>>)
 =============================================================================
